@@ -135,3 +135,44 @@ SPEC_ENTRY = {'title': 'Socket streams are loss-free and obey credit-based flow 
  "  /\\ c_tx_cnt (v_info v') = 7 /\\ c_fwd_cnt (v_info v') = 5 /\\ c_pending (v_info v') = false\n"
  "  /\\ s_tx_total st' = 9 /\\ s_delivered st' = 6 /\\ v_rb v' = mkRB [13; 11; 12] 1 0.\n"
  'Proof. exact sys_run_nonvacuous. Qed.']}
+
+# ---- the monitors evaluated on the IMPLEMENTATION's observations, tied to the statements they stand for (Proofs/VsockMonProofs.v):
+# ---- "meaning" = what a true verdict implies, for any input list; "holds_of_model" = no false alarm on code that behaves like the model
+SPEC_ENTRY['imports'] += [m for m in ['Extract.VsockIO', 'Proofs.VsockMonProofs'] if m not in SPEC_ENTRY['imports']]
+SPEC_ENTRY['theorems'] += [
+  ('C17_monitor_1751_meaning', 'Proofs/VsockMonProofs.v', 'mon1751_meaning', 'line [cap]: the specification queue becomes the empty queue of that capacity'),
+  ('C17_monitor_1752_meaning', 'Proofs/VsockMonProofs.v', 'mon1752_meaning', 'add: accepted exactly when the bytes fit (queue ++ bytes), refused exactly when not (unchanged)'),
+  ('C17_monitor_1753_meaning', 'Proofs/VsockMonProofs.v', 'mon1753_meaning', 'drain: n = min(out_len, length), the bytes are the n oldest, the rest stays'),
+  ('C17_monitor_fifo_bounded', 'Proofs/VsockMonProofs.v', 'mon_fifo_bounded', 'the specification queue never outgrows its capacity'),
+  ('C17_monitor_1760_meaning', 'Proofs/VsockMonProofs.v', 'mon1760_meaning', 'observer set-up: ten numbers, explicit initial record'),
+  ('C17_monitor_1761_meaning', 'Proofs/VsockMonProofs.v', 'mon1761_meaning', "send: fits => Ok, one RW packet with correct fields, payload intact, in flight still within the peer's space; else refused, at most one credit request"),
+  ('C17_monitor_1762_meaning', 'Proofs/VsockMonProofs.v', 'mon1762_meaning', 'peer control packet: credit request answered by one credit update with current numbers; others reported, nothing sent'),
+  ('C17_monitor_1763_meaning', 'Proofs/VsockMonProofs.v', 'mon1763_meaning', 'peer data within the advertised credit is accepted, payload appended to the unread stream'),
+  ('C17_monitor_1764_meaning', 'Proofs/VsockMonProofs.v', 'mon1764_meaning', 'recv returns exactly the min(out_len, buffered) oldest unread bytes'),
+  ('C17_monitor_1765_meaning', 'Proofs/VsockMonProofs.v', 'mon1765_meaning', 'update_credit: one credit update with the current buf_alloc / fwd_cnt'),
+  ('C17_monitor_1766_meaning', 'Proofs/VsockMonProofs.v', 'mon1766_meaning', 'connect / shutdown packet: addressing, stream type, current buf_alloc / fwd_cnt, no payload'),
+  ('C17_monitor_1767_meaning', 'Proofs/VsockMonProofs.v', 'mon1767_meaning', 'exactly 44 bytes that decode by the specification offsets to the ten fields asked for'),
+  ('C17_monitor_1767_fields', 'Proofs/VsockMonProofs.v', 'mon1767_fields', 'the same, each field as the little-endian number at its offset'),
+  ('C17_monitor_1770_meaning', 'Proofs/VsockMonProofs.v', 'mon1770_meaning', '32-bit credit rule: fits <=> accepted with tx_cnt + len mod 2^32 and one RW packet; else refused, one credit request iff none pending'),
+  ('C17_monitor_1770_in_flight', 'Proofs/VsockMonProofs.v', 'mon1770_in_flight_bounded', "after an accepted non-empty send (tx_cnt' - peer_fwd_cnt) mod 2^32 grew by len and is <= peer_buf_alloc, across the wrap"),
+  ('C17_monitor_1771_meaning', 'Proofs/VsockMonProofs.v', 'mon1771_meaning', 'done_forwarding returned and fwd_cnt advanced by n modulo 2^32'),
+  ('C17_monitor_stream_meaning', 'Proofs/VsockMonProofs.v', 'mon_stream_lossless_meaning', 'all observer lines accepted => unread ++ peer payloads = bytes read ++ unread afterwards, in order'),
+  ('C17_monitor_stream_from_start', 'Proofs/VsockMonProofs.v', 'mon_stream_lossless_from_start', 'from a 1760 line: delivered = read ++ unread, and S = D + unread'),
+  ('C17_monitor_opkts_decode', 'Proofs/VsockMonProofs.v', 'vk_dec_opkts_layout', 'every list decodes as a documented packet list (count >= packets present)'),
+  ('C17_monitor_first_line', 'Proofs/VsockMonProofs.v', 'vsock_step_from_none', 'an accepted stateful line at scenario start (no state) is the same line from vs0'),
+  ('C17_monitor_1751_holds_of_model', 'Proofs/VsockMonProofs.v', 'mon1751_holds_of_model', None),
+  ('C17_monitor_1752_holds_of_model', 'Proofs/VsockMonProofs.v', 'mon1752_holds_of_model', 'the line of rb_add passes when the spec queue is rb_abs; it stays so'),
+  ('C17_monitor_1753_holds_of_model', 'Proofs/VsockMonProofs.v', 'mon1753_holds_of_model', 'the line of rb_drain passes'),
+  ('C17_monitor_1760_holds_of_model', 'Proofs/VsockMonProofs.v', 'mon1760_holds_of_model', 'the state set up by 1760 is Rel-related to the fresh connection'),
+  ('C17_monitor_1761_holds_of_model', 'Proofs/VsockMonProofs.v', 'mon1761_holds_of_model', 'the line of vsend passes in every Rel state, Rel kept'),
+  ('C17_monitor_1762_holds_of_model', 'Proofs/VsockMonProofs.v', 'mon1762_holds_of_model', None),
+  ('C17_monitor_1763_holds_of_model', 'Proofs/VsockMonProofs.v', 'mon1763_holds_of_model', None),
+  ('C17_monitor_1764_holds_of_model', 'Proofs/VsockMonProofs.v', 'mon1764_holds_of_model', None),
+  ('C17_monitor_1765_holds_of_model', 'Proofs/VsockMonProofs.v', 'mon1765_holds_of_model', None),
+  ('C17_monitor_1766_holds_of_model', 'Proofs/VsockMonProofs.v', 'mon1766_holds_of_model', 'any payload-free packet built on new_header passes'),
+  ('C17_monitor_1767_holds_of_model', 'Proofs/VsockMonProofs.v', 'mon1767_holds_of_model', 'header encoder round trip'),
+  ('C17_monitor_1767_holds_of_send', 'Proofs/VsockMonProofs.v', 'mon1767_holds_of_send', 'every packet of send, fields asked for computed from the connection'),
+  ('C17_monitor_1770_holds_of_model', 'Proofs/VsockMonProofs.v', 'mon1770_holds_of_model', 'send passes for EVERY counter value, pending flag and length'),
+  ('C17_monitor_1771_holds_of_model', 'Proofs/VsockMonProofs.v', 'mon1771_holds_of_model', 'done_forwarding passes unconditionally'),
+  ('C17_monitor_nonvacuous', 'Proofs/VsockMonProofs.v', 'c17x_accepted_history', 'eleven observer lines, all accepted, fwd_cnt crossing 2^32'),
+]
